@@ -79,6 +79,8 @@ pub enum G {
     Memo(B),
     Rec(B),
     Ref(usize),
+    Let(B, B),
+    Var(usize),
     WithCtx(Val, B),
     ThenCtx(B, B),
     IgnCtx(B, B),
@@ -214,6 +216,8 @@ impl G {
             "memo" => G::Memo(bx(&a[1])?),
             "rec" => G::Rec(bx(&a[1])?),
             "ref" => G::Ref(us(&a[1])),
+            "let" => G::Let(bx(&a[1])?, bx(&a[2])?),
+            "var" => G::Var(us(&a[1])),
             "withctx" => G::WithCtx(Val::from_json(&a[1])?, bx(&a[2])?),
             "thenctx" => G::ThenCtx(bx(&a[1])?, bx(&a[2])?),
             "ignctx" => G::IgnCtx(bx(&a[1])?, bx(&a[2])?),
